@@ -40,6 +40,9 @@ Example C07_replay_needs_process_zero :
 Proof. exact replay_needs_process_zero. Qed.
 
 Example C07_seeding_trace_nonvacuous :
-  seeding_ok (Some 5) (Some 1) 6 [EvSeedPy 6; EvSeedNp 6; EvRandint 77; EvSeedPy 77; EvSeedNp 77; EvSeedPy 6; EvSeedNp 6] = true /\
-  seeding_ok (Some 5) None 5 [EvSeedPy 5; EvSeedNp 6] = false.
-Proof. vm_compute. split; reflexivity. Qed.
+  seeding_ok false (Some 5) (Some 1) 6 [EvSeedPy 6; EvSeedNp 6; EvRandint 77; EvSeedPy 77; EvSeedNp 77; EvSeedPy 6; EvSeedNp 6] = true /\
+  seeding_ok false (Some 5) None 5 [EvSeedPy 5; EvSeedNp 6] = false /\
+  (* the defect fixed in /repo: the grid back-end drew its own seed when random_state was None *)
+  seeding_ok true None None 40 [EvRandint 40; EvSeedPy 40; EvSeedNp 40; EvRandint 77; EvSeedPy 77; EvSeedNp 77] = false /\
+  seeding_ok true None None 40 [EvRandint 40; EvSeedPy 40; EvSeedNp 40; EvSeedPy 40; EvSeedNp 40] = true.
+Proof. vm_compute. repeat split; reflexivity. Qed.
